@@ -201,3 +201,39 @@ func VH_C05_extract() {
 		vndAssert(seen[i] == 1, "every field is reported exactly once")
 	}
 }
+
+// VH_C13_extract_pure (property C13): extracting a field from a Registers view changes neither the payload nor how
+// later reads on the same view decode, and repeating the extraction gives the same result.
+func VH_C13_extract_pure() {
+	class := vndParam("class")
+	const n = 4
+	payload := vndBytes("payload", 2*n, 0)
+	start := vndU16("start")
+	vndAssume(int(start)+n <= 65536)
+	regs, err := packet.NewRegisters(payload, start)
+	vndAssert(err == nil, "view over whole registers")
+	if vndBool("setDefaultOrder") {
+		regs.WithByteOrder(packet.ByteOrder(vndU8("defaultOrder")))
+	}
+	snap := append([]byte{}, payload...)
+	probe := func() [4]uint64 {
+		a, _ := regs.Uint16(start)
+		b, _ := regs.Uint32(start)
+		c, _ := regs.Uint64(start)
+		d, _ := regs.Int16(start + 3)
+		return [4]uint64{uint64(a), uint64(b), c, uint64(uint16(d))}
+	}
+	before := probe()
+	f, _, _ := vhRegisterField(1, class, start, [2]uint8{1, 2})
+	f.Address = start + uint16(vndChoice("fieldoffset", n))
+	v1, e1 := f.ExtractFrom(regs)
+	vndCover("extracted")
+	vndAssert(vhEqualBytes(payload, snap), "payload bytes unchanged by the extraction")
+	after := probe()
+	vndAssert(before == after, "later reads on the same view decode exactly as before the extraction")
+	v2, e2 := f.ExtractFrom(regs)
+	vndAssert((e1 == nil) == (e2 == nil), "repeating the extraction gives the same outcome")
+	if e1 == nil && e2 == nil {
+		vndAssert(vhSameValue(v1, v2), "repeating the extraction gives the same value")
+	}
+}
